@@ -214,7 +214,7 @@ theorem dtick_cyclic_shape {s s' : Sys} {perm : List Name} (hr : Ranked inp rank
         have hp := hnd.pcl; rw [hpc] at hp
         simp only [hpc] at hs
         cases todo with
-        | cons x xs => cases hs; exact gs n nd x _ hn (Dep.calc (hp x (by simp))) hc
+        | cons x xs => cases hs; exact gs n nd x _ hn (Dep.ofCalc (hp x (by simp))) hc
         | nil => cases hs; exact aw _ _ _ _ _ hc
       | taskIter todo =>
         have hp := hnd.pcl; rw [hpc] at hp
